@@ -22,7 +22,7 @@ use crate::rng::Rng;
 pub fn codecs_of(name: &str) -> Vec<&'static str> {
     let all = crate::cx::CODECS.to_vec();
     match name {
-        "c10" | "c10all" => vec!["dna", "text", "mdna", "miupac", "degen"],
+        "c10" | "c10all" => vec!["dna", "text", "mdna", "miupac", "degen", "x3", "x7"],
         "c12" | "c12all" | "c14" | "c14all" | "c14order" => vec!["iupac"],
         "c12dna" | "c13" | "c19conv" => vec!["dna"],
         "c15" => vec!["dna", "iupac"],
